@@ -602,6 +602,10 @@ def generate(kernels=None) -> t.Dict[str, dict]:
                 status[k.name]["text"] = text
                 status[k.name]["props"] = list(k.props)
                 fout.append(text + "\n")
+            if getattr(mod, "FLOW_INDEX", None):
+                # an index of the area's flows by Python name (used by the semantics self-test)
+                items = "; ".join(f'("{k.func}", {k.name})' for k in flows if status[k.name]["located"])
+                fout.append(f"Definition {mod.FLOW_INDEX} : list (string * pfun) := [{items}].\n")
             _write_if_changed(os.path.join(COQ, "gen", _kt.flow_file(area)), "".join(fout))
     return status
 
